@@ -87,6 +87,14 @@ func (m *ModelServer) ListHails(_ context.Context, request *traits.ListHailsRequ
 		nextIndex = sort.Search(len(sortedItems), func(i int) bool {
 			return sortedItems[i].Id > lastKey
 		})
+		// the listing is in the collection's order, which an id interceptor can make differ from the order of the
+		// ids themselves: carry on right after the item the last page ended with whenever it is still there
+		for i, item := range sortedItems {
+			if item.Id == lastKey {
+				nextIndex = i + 1
+				break
+			}
+		}
 	}
 
 	result := &traits.ListHailsResponse{
